@@ -1,7 +1,7 @@
 (* Sem/CallsStmt.v — segments and statements: their parenthesis trees, the text of one level and
    what the CALL_RE scan finds in it (towards C08_raw). *)
 From Coq Require Import Lia.
-From Ford Require Import Base.Str Base.StrFacts Gen.Intrinsics Sem.Calls Sem.CallsSpec Sem.CallsStrip Sem.CallsScan.
+From Ford Require Import Base.Str Base.StrFacts Gen.Intrinsics Sem.Calls Sem.CallsSpec Sem.CallsDefs Sem.CallsStrip Sem.CallsScan.
 
 (* ------------------------------------------------------------------ first character that is not white space *)
 Definition fns (x : str) : option ascii := match lstrip_s x with c :: _ => Some c | [] => None end.
@@ -129,19 +129,8 @@ Proof.
     destruct (fns op) eqn:Eo; [discriminate|]. exfalso. exact (fns_has_nonspace op (op_has_nonspace op Hop) Eo).
 Qed.
 
-(* ------------------------------------------------------------------ segments *)
-Definition kw_sp (sp : bool) : str := if sp then [space] else [].
 
-Definition sh_seg (g : seg) : str :=
-  match g with
-  | GWord w => w
-  | GKw kw sp _ => kw ++ kw_sp sp ++ par2
-  | GExpr e => sh_e e
-  end.
-Definition sh_segs (gs : list seg) : str := join [space] (map sh_seg gs).
 
-Definition subs_seg (g : seg) : list expr :=
-  match g with GWord _ => [] | GKw _ _ c => [c] | GExpr e => subs_e e end.
 
 Definition tree_seg (g : seg) : ptree :=
   match g with
@@ -158,8 +147,6 @@ Fixpoint tree_segs (gs : list seg) : ptree :=
 
 Definition seg_heads (g : seg) : list str :=
   match g with GWord _ => [] | GKw kw sp _ => [kw ++ kw_sp sp ++ par2] | GExpr e => e_heads e end.
-Definition seg_heads0 (g : seg) : list chain :=
-  match g with GWord _ => [] | GKw kw _ _ => [[lower kw]] | GExpr e => e_heads0 e end.
 
 Lemma tree_seg_flat g : flat (tree_seg g) = render_seg g.
 Proof.
@@ -393,12 +380,6 @@ Proof.
   induction es as [|e es IH]; [reflexivity|]. cbn [map flat_map]. rewrite map_app, IH, (proj1 tree_groups). reflexivity.
 Qed.
 
-(* reference heads in the slices (d+1) levels below the parenthesised expressions es *)
-Fixpoint deep_heads (d : nat) (es : list expr) : list chain :=
-  match d with
-  | 0 => flat_map e_heads0 es
-  | S d' => deep_heads d' (flat_map subs_e es)
-  end.
 
 Lemma name_after_rpar : name_after [rpar].
 Proof. split; [reflexivity|]. unfold lstrip_s. cbn. split; reflexivity. Qed.
@@ -467,16 +448,6 @@ Proof.
     destruct Hex as (g & Hin & Hne). pose proof (IH g Hne). pose proof (in_groups_len g t Hin). lia.
 Qed.
 
-(* ------------------------------------------------------------------ statements scanned by CALL_RE only *)
-(* no CALL keyword where SUBCALL_RE looks for it: at the start, or behind a closing parenthesis
-   of a statement that starts with IF *)
-Fixpoint close_call_free (x : str) : bool :=
-  match x with
-  | [] => true
-  | c :: x' => (if Ascii.eqb c rpar then negb (starts_ci (s "call") (lstrip_s x')) else true) && close_call_free x'
-  end.
-Definition plain_text (x : str) : bool :=
-  negb (starts_ci (s "call") x) && (negb (starts_ci (s "if") x) || close_call_free x).
 
 Lemma call_kw_none z : starts_ci (s "call") z = false -> call_kw z = None.
 Proof. intros H. unfold call_kw. now rewrite H. Qed.
@@ -587,8 +558,6 @@ Proof.
   destruct gs as [|g' gs]; [exact Hne|]. rewrite sh_segs_cons. destruct (sh_seg g); [contradiction|discriminate].
 Qed.
 
-Definition level_heads (es : list expr) (n : nat) : list chain :=
-  flat_map (fun d => deep_heads d es) (seq 0 n).
 
 Lemma deep_levels_norm t es n : groups t = map tree_e es -> forallb wf_e es = true ->
   map norm_chain (flat_map (fun d => flat_map call_matches (deep d t)) (seq 0 n)) = level_heads es n.
